@@ -218,6 +218,13 @@ func UseSites() []UseSite {
 			Refs: []UseRef{{Kind: UKFunc}, {Kind: UKMethod, Tag: "Reset"}, {Kind: UKFunc}}},
 		{Tag: "nested use(Helper(), Mock{})", Stmt: "_ = []any{{q}Helper(), {q}Mock{}, {q}Helper()}", Kind: UKFunc, TONL: true,
 			Refs: []UseRef{{Kind: UKFunc}, {Kind: UKType, Type: "Mock"}, {Kind: UKFunc}}},
+		// references nested in the RECEIVER of a reported method call
+		{Tag: "nested chain MkS().Reset()", Stmt: "{q}MkS().Reset()", Kind: UKFunc, TONL: true, Core: true,
+			Refs: []UseRef{{Kind: UKFunc}, {Kind: UKMethod, Tag: "Reset"}}},
+		{Tag: "nested receiver map[Mock2]S{}[Mock2{}].Reset()", Stmt: "map[{q}Mock2]{q}S{}[{q}Mock2{}].Reset()", Kind: UKType, Type: "Mock2", TONL: true,
+			Refs: []UseRef{{Kind: UKType, Type: "Mock2"}, {Kind: UKMethod, Tag: "Reset"}}},
+		// a local variable with the NAME of the import whose method IS annotated (after a qualified call in the same file)
+		{Tag: "shadow import name d := S{}; d.Reset()", Stmt: "func() { d := {q}S{}; d.Reset() }()", Kind: UKMethod, TONL: true, Core: true},
 		// the importing package's own, unannotated items that share the names of d's annotated ones
 		{Tag: "own Helper()", Stmt: "Helper()", Kind: UKNone, TONL: true, Core: true, OnlyImporter: true},
 		{Tag: "own Mock{}", Stmt: "_ = Mock{}", Kind: UKNone, TONL: true, OnlyImporter: true},
@@ -457,6 +464,10 @@ func usePreludeD(w *lineWriter, m UseMix) {
 		w.add("")
 		w.add("func PlainF() int { return 0 }")
 		w.add("")
+		w.add("// MkS carries the same annotations and returns a value whose methods can be chained onto the call.")
+		m.ann(w, "", ItHelper)
+		w.add("func MkS() S { return S{} }")
+		w.add("")
 		w.add("// HelperG is generic and carries the same annotations.")
 		m.ann(w, "", ItHelper)
 		w.add("func HelperG[V any](v V) int { return 0 }")
@@ -536,12 +547,13 @@ func RenderUse(s *UseSpec) *UseRendered {
 		mock, mock2 = "c.AMock", "c.AMock2"
 	}
 	ctr := 0
-	subst := func(stmt string) string {
+	substWith := func(stmt, mock, mock2 string) string {
 		ctr++
 		st := strings.ReplaceAll(stmt, "{q}Mock2", mock2)
 		st = strings.ReplaceAll(st, "{q}Mock", mock)
 		return strings.NewReplacer("{q}", q, "$v", fmt.Sprintf("v%d", ctr)).Replace(st)
 	}
+	subst := func(stmt string) string { return substWith(stmt, mock, mock2) }
 	files := make([]*lineWriter, 4)
 	perFile := make([][]UseSiteInst, 4)
 	used := []bool{true, false, false, false}
@@ -700,6 +712,29 @@ func RenderUse(s *UseSpec) *UseRendered {
 			w.add("")
 			continue
 		}
+		bodyAlias := s.Spell == SpBodyAlias
+		if bodyAlias {
+			// function-local aliases for the types this body mentions; the declarations are references themselves
+			for ti, typ := range []string{"Mock", "Mock2"} {
+				used := false
+				for _, si := range b.Stmts {
+					if s.Sites[si].Type == typ {
+						used = true
+					}
+					for _, ref := range s.Sites[si].Refs {
+						if ref.Type == typ {
+							used = true
+						}
+					}
+				}
+				if used {
+					ln := w.add("\ttype B" + typ + " = " + q + typ)
+					inst := UseSiteInst{Tag: "body-alias-decl " + typ, Kind: UKType, Type: typ, Block: bi, Ord: -1 - ti,
+						FileNo: b.File, Line: ln, Exempt: b.Encl.exemptTONL(), PKGOOnly: true}
+					perFile[b.File] = append(perFile[b.File], inst)
+				}
+			}
+		}
 		for ord, si := range b.Stmts {
 			st := &s.Sites[si]
 			if st.OnlyImporter && (inD || (dot && strings.HasPrefix(st.Tag, "own "))) {
@@ -707,6 +742,10 @@ func RenderUse(s *UseSpec) *UseRendered {
 			}
 			pre(w, "\t")
 			text := "\t" + subst(st.Stmt)
+			if bodyAlias {
+				ctr--
+				text = "\t" + substWith(st.Stmt, "BMock", "BMock2")
+			}
 			if ord == 0 && b.Trail != "" {
 				text += " " + b.Trail
 			}
